@@ -220,6 +220,17 @@ KeySets == {ks \in SUBSET KeyU : Cardinality(ks) \in 1..3}
    the value the expression denotes; nothing of the link if it denotes nothing *)
 Derived(expr, x) == LET r == Eval(expr, x) IN IF r.k = "val" THEN [sent |-> TRUE, v |-> r.v] ELSE [sent |-> FALSE, v |-> NoBody]
 
+(* a link's requestBody (or a parameter value) may be any JSON tree: every string in it, at any depth, through objects AND
+   arrays, is an expression or a constant; if one of them denotes nothing the whole value denotes nothing *)
+RECURSIVE EvalTree(_, _)
+EvalTree(d, x) == IF d.t = "str" THEN (LET r == Eval(d.s, x) IN IF r.k = "val" THEN r.v ELSE Unres)
+                  ELSE IF d.t \in {"arr", "obj"}
+                       THEN LET items == [n \in 1..Len(d.a) |-> EvalTree(d.a[n], x)] IN
+                              IF \E n \in 1..Len(items) : items[n].t = "unres" THEN Unres
+                              ELSE IF d.t = "arr" THEN Arr(items) ELSE Obj(d.k, items)
+                  ELSE d
+TreeResult(d, x) == LET r == EvalTree(d, x) IN IF r.t = "unres" THEN RUnres ELSE Val(r)
+
 (* ------------------------------ exchanges ------------------------------- *)
 P(n, v) == [n |-> n, v |-> v]
 X1 == [method |-> <<80, 79, 83, 84>>,                                                                   \* POST
@@ -284,25 +295,46 @@ Edits(s) == {SubSeq(s, 1, i - 1) \o SubSeq(s, i + 1, Len(s)) : i \in 1..Len(s)}
             \cup {[s EXCEPT ![i] = c] : i \in 1..Len(s), c \in EditChars}
 Family == BareWF \cup Inner \cup MutBase \cup PtrExprs \cup Templates \cup UNION {Edits(s) : s \in MutBase}
 
+(* ----------------------------- value trees ------------------------------ *)
+kItems == <<105, 116, 101, 109, 115>>                                  \* "items"
+kSku == <<115, 107, 117>>                                              \* "sku"
+Leaves == {Str(RespId), Str(RespAB), Str(RespZZ), Str(tAb), IntV(5)}   \* int / string / nothing (on X1) ; a constant ; a number
+Shapes(l, m) == {l, Obj(<<<<97>>>>, <<l>>), Arr(<<l, m>>),
+                 Obj(<<kItems>>, <<Arr(<<Obj(<<kSku>>, <<l>>)>>)>>),                         \* {"items": [{"sku": l}]}
+                 Arr(<<Arr(<<l>>), m>>),                                                    \* [[l], m]
+                 Obj(<<kItems, <<97>>>>, <<Arr(<<m, Obj(<<kSku>>, <<Arr(<<l>>)>>)>>), m>>),  \* {"items": [m, {"sku": [l]}], "a": m}
+                 Arr(<<Obj(<<<<97>>>>, <<Obj(<<kSku>>, <<l>>)>>)>>)}                         \* [{"a": {"sku": l}}]
+Trees == UNION {Shapes(l, m) : l \in Leaves, m \in Leaves}
+
 (* ------------------------------ the system ------------------------------ *)
-VARIABLES fam, e, xid, key, keys, out
-vars == <<fam, e, xid, key, keys, out>>
+VARIABLES fam, e, tree, xid, key, keys, out
+vars == <<fam, e, tree, xid, key, keys, out>>
 Pending == [k |-> "pending"]
 Init == /\ out = Pending
-        /\ \/ fam = "expr" /\ e \in Family /\ xid \in {"X1", "X2"} /\ key = "" /\ keys = {}
-           \/ fam = "status" /\ e = <<>> /\ xid = "" /\ keys \in KeySets /\ key \in keys
+        /\ \/ fam = "expr" /\ e \in Family /\ tree = Null /\ xid \in {"X1", "X2"} /\ key = "" /\ keys = {}
+           \/ fam = "tree" /\ e = <<>> /\ tree \in Trees /\ xid \in {"X1", "X2"} /\ key = "" /\ keys = {}
+           \/ fam = "status" /\ e = <<>> /\ tree = Null /\ xid = "" /\ keys \in KeySets /\ key \in keys
 (* following a link evaluates its expression on the source exchange *)
-Evaluate == /\ fam = "expr" /\ out = Pending /\ out' = Eval(e, X(xid)) /\ UNCHANGED <<fam, e, xid, key, keys>>
+Evaluate == /\ fam = "expr" /\ out = Pending /\ out' = Eval(e, X(xid)) /\ UNCHANGED <<fam, e, tree, xid, key, keys>>
+(* ... and its requestBody / a structured parameter value as a whole tree *)
+EvaluateTree == /\ fam = "tree" /\ out = Pending /\ out' = TreeResult(tree, X(xid)) /\ UNCHANGED <<fam, e, tree, xid, key, keys>>
 (* routing a response: the statuses from which the link under `key` may be followed *)
 MatchStatuses == /\ fam = "status" /\ out = Pending
                  /\ out' = [k |-> "statuses", v |-> {s \in Statuses : LinkMatches(key, s, keys)}]
-                 /\ UNCHANGED <<fam, e, xid, key, keys>>
-Next == Evaluate \/ MatchStatuses
+                 /\ UNCHANGED <<fam, e, tree, xid, key, keys>>
+Next == Evaluate \/ EvaluateTree \/ MatchStatuses
 Spec == Init /\ [][Next]_vars
 
 (* --------------------------- design invariants -------------------------- *)
 Kinds == {"pending", "statuses", "val", "unres", "malformed", "badptr", "litorrej", "U"}
 TypeOK == out.k \in Kinds /\ (fam = "status" => out.k \in {"pending", "statuses"}) /\ (fam = "expr" => out.k # "statuses")
+          /\ (fam = "tree" => out.k \in {"pending", "val", "unres"})
+(* a tree denotes nothing iff one of its strings does; otherwise it keeps its shape *)
+RECURSIVE Strings(_)
+Strings(d) == IF d.t = "str" THEN {d.s} ELSE IF d.t \in {"arr", "obj"} THEN UNION {Strings(d.a[n]) : n \in 1..Len(d.a)} ELSE {}
+TreeAllOrNothing == (fam = "tree" /\ out.k # "pending") =>
+                        /\ (out.k = "unres") <=> \E t \in Strings(tree) : Eval(t, X(xid)).k # "val"
+                        /\ (out.k = "val" /\ tree.t \in {"arr", "obj"}) => out.v.t = tree.t /\ Len(out.v.a) = Len(tree.a)
 (* every status is claimed by an explicit key or by default, never by both; exact and wildcard keys never exclude each other *)
 DefaultIsTheRest == (fam = "status" /\ out.k = "statuses" /\ key = "default") =>
                         \A s \in Statuses : (s \in out.v) <=> ~\E k \in keys \ {"default"} : DigitsMatch(k, s)
@@ -325,5 +357,6 @@ PointerLaws == /\ Resolve(X1.rbody, <<>>) = X1.rbody
 ASSUME PrintT(<<"EXCHANGE", ToJson([X1 |-> X1, X2 |-> X2])>>)
 Export == IF out = Pending THEN TRUE
           ELSE IF fam = "expr" THEN PrintT(<<"CASE", ToJson([e |-> e, x |-> xid, exp |-> out])>>)
+          ELSE IF fam = "tree" THEN PrintT(<<"TREE", ToJson([tree |-> tree, x |-> xid, exp |-> out])>>)
           ELSE PrintT(<<"STATUS", ToJson([key |-> key, keys |-> keys, matched |-> out.v])>>)
 =============================================================================
